@@ -155,7 +155,7 @@ static Exec run_once(const Cfg& cfg, vsched::Sched::Mode mode, uint64_t seed, co
       continue;
     }
     cnt[idx]++;
-    if (e.tn >= (size_t)cfg.nthreads) bad(fmt("%s:thread-num-out-of-range", k), fmt("thread_num=%zu with num_threads=%d", e.tn, cfg.nthreads));
+    if (e.tn >= (size_t)(cfg.nthreads ? cfg.nthreads : 2)) bad(fmt("%s:thread-num-out-of-range", k), fmt("thread_num=%zu with num_threads=%d", e.tn, cfg.nthreads));
     if (e.by_tid == 0) bad(fmt("%s:callback-on-caller-thread", k), "callback ran on the calling thread");
     if (e.after_return) bad(fmt("%s:callback-after-return", k), "callback event after the call returned");
     if (e.ret) {
@@ -251,6 +251,7 @@ int main(int argc, char** argv) {
   add_small_cfgs<uint64_t>(cfgs, "u64", 0, 2, 4, false);           // 2 threads x ranges 0..4 x all truth masks
   add_small_cfgs<uint64_t>(cfgs, "u64", 0, 3, c.qt(2, 3), false);  // 3 threads x ranges 0..2 (quick) / 0..3 (thorough)
   add_small_cfgs<uint64_t>(cfgs, "u64", 0, 1, 3, false);           // single worker
+  add_small_cfgs<uint64_t>(cfgs, "u64", 0, 0, 2, false);           // num_threads = 0: the documented default (shim reports 2 cores)
   add_small_cfgs<uint64_t>(cfgs, "u64", 0, 2, 2, true);            // with a progress callback polling the cursor
   add_small_cfgs<int32_t>(cfgs, "i32", -2, 2, 3, false);           // negative start, signed cursor
   add_small_cfgs<uint8_t>(cfgs, "u8", 200, 2, 3, false);           // narrow cursor type
